@@ -1,33 +1,101 @@
 """C07 — numbers compare and compute exactly as specified.
-Theorems: lean/ZygoVerif/Props/C07.lean over the hand-written model Model/Num.lean.
-Tie: channel `num` (boundary grid exhaustive + random 64-bit patterns, direct builtin
-call and script-level route); spec column = mathematical order / ℤ arithmetic."""
+Theorems: lean/ZygoVerif/Props/C07.lean over the hand-written model Model/Num.lean AND over
+Generated/NumGo.lean, the Lean TRANSLATION of zygo/comparisons.go + numerictower.go that
+extract/ex_numtrans.go regenerates from the Go source on every run (tie T1; theorems
+generated_eq_model_*). Tie T2: channel `num` (boundary grid exhaustive + random 64-bit
+patterns, direct builtin call and script-level route; g-ops run the translated functions
+against the Go originals); spec column = mathematical order / ℤ arithmetic."""
+import os, re
 import vcommon as V
 
 META = dict(
-    text="Lean 4 theorems (Props/C07.lean) prove, for every pair of 64-bit integers, unsigned integers and 32-bit chars with no assumption, and for floats relative to a stated IEEE hypothesis record, that the model of Compare/CompareFunction equals the mathematical order (NaN unordered from either side, trichotomy, (< a b) = (> b a)), that + - * wrap modulo 2^64, that division is exact when it divides and floating otherwise, and that a zero divisor is an error. A unit test can only sample pairs; the theorem covers all 2^128.",
-    note="Trusted: Lean kernel; axioms propext/Classical.choice/Quot.sound; IEEE-754 laws enter as hypotheses (IEEELaws), sampled not proved; the model Model/Num.lean is hand-written and tied to zygo/comparisons.go and numerictower.go by the `num` correspondence (exhaustive boundary grid x all operators x all type pairs + random 64-bit patterns, direct and script-level routes), which is differential testing.",
-    technique="Lean 4 proof over BitVec 64 model + model/implementation correspondence on a boundary grid",
-    design_ref="DESIGN.md §7 C07",
+    text="Lean 4 theorems (Props/C07.lean) prove, for every pair of 64-bit integers, unsigned integers and 32-bit chars with no assumption, and for floats relative to a stated IEEE hypothesis record, that Compare/CompareFunction equal the mathematical order (NaN unordered from either side, trichotomy, (< a b) = (> b a)), that + - * wrap modulo 2^64, that division is exact when it divides and floating otherwise, and that a zero divisor is an error. The theorems are stated about a hand-written model and carried over to the code itself: on every run a Go-subset → Lean translator re-translates (*Zlisp).Compare, compare{Int,Uint64,Char,Float,Bool}, cmpInt64, signum*, NumericDo, NumericMatch{Float,Int,Uint64,Char}, Numeric{Float,Int,Uint64}Do, IntegerDo and UintegerDo from their current go/ast + go/types form, and the theorems generated_eq_model_compare / _numericDo / _modulo prove the translated functions equal to the model on all operands (gen_cmp_exact, gen_compareFn_spec, gen_int_arith_wraps, gen_div_mod_zero_is_error … restate the headline results on the translated code). A unit test can only sample pairs; the theorem covers all 2^128, for the source as it is now.",
+    note="Trusted: Lean kernel; axioms propext/Classical.choice/Quot.sound; IEEE-754 laws enter as hypotheses (IEEELaws), sampled not proved. NEW in the trusted base: the translator extract/ex_numtrans.go (≈1900 lines of Go) and its 60-line target vocabulary Model/GoSem.lean. It handles exactly: types int64/int/uint64/uint/int32(rune)/other sized ints (BitVec of that width, signedness by static type; Go `int` is taken to be 64 bits), float64 (abstract FloatSem carrier), bool, the interface Sexp restricted to the dynamic types *SexpInt/*SexpUint64/*SexpChar/*SexpFloat/*SexpBool (sum type Sx; a pointer to such a struct is its Val field, Typ/Scientific are not modelled), the enums NumericOp without Pow and IntegerOp, error as nil/non-nil; expressions: constants, locals, x.Val, &SexpT{Val: e}, integer↔integer and integer→float64 conversions, math.IsNaN, calls of translated functions, + - * / % & | ^ &^ << >> == != < <= > >= on integers with wrap-around (a zero divisor is the outcome `panic`), + - * / < > on floats, the float constant 0, && || !; statements: return, if/else with init, type switch on a Sexp, switch on an enum / integer / bool tag or tagless, break out of a switch, := = op= ++ -- on locals, var, blocks, `if v, ok := x.(I); ok` when no operand kind implements I, error values from errors.New / fmt.Errorf / fmt.Sprintf / package variables. Control flow is translated path by path; arms unreachable for the operand domain (other Sexp types, Pow) are skipped and listed in NumGo.skippedArms. Everything else (loops, closures, slices, strings as data, float ==/<=/>=, float→int, other calls, recursion, …) is REFUSED with function, construct and position: the function then falls back to its committed last-good translation Model/NumGoGood.lean (refreshed only by bin/numgo-accept) and is tied by correspondence only — reported in the evidence (coverage.translator.refused), not an alarm. The translator itself is validated on every run: the g-ops of channel `num` run the TRANSLATED Compare/NumericDo/IntegerDo (all 7 integer ops) and the Go originals on the exhaustive boundary grid (incl. bools) and on random 64-bit patterns, so a translator bug shows as a correspondence break rather than a false proof. Still hand-modelled and tied by correspondence only: the glue of CompareFunction (argument count, operator name → condition on the three-way result; genCompareFn in Props/C07.lean), the accumulation loop of NumericFunction, the name→op table of BinaryIntFunction, and CallUserFunction's recover.",
+    technique="Lean 4 proof over a BitVec 64 model + Go-subset → Lean translation of the current source proved equal to the model (T1) + model/implementation and translation/implementation correspondence on a boundary grid (T2)",
+    design_ref="DESIGN.md §3 T1 (Generated/Num.lean row), §5, §7 C07",
 )
 
 def run(rep):
     prep = V.prepare(["ZygoVerif.Props.C07"])
     ok = V.lean_phase(rep, prep, "ZygoVerif.Props.C07")
+    name_broken_theorems(rep)
     rep.assumptions += [
         "IEEE-754 binary64 behaviour enters the float theorems only through the hypothesis record IEEELaws (sampled on native floats by this run, labelled a test)",
-        "Model/Num.lean is hand-written; tied to zygo/comparisons.go + numerictower.go by the `num` correspondence only",
+        "Model/Num.lean is hand-written; it is tied to zygo/comparisons.go + numerictower.go by the theorems generated_eq_model_* over the translation regenerated from the current source (T1), and by the `num` correspondence (T2)",
+        "the Go-subset → Lean translator extract/ex_numtrans.go is trusted (validated on every run by the g-ops of channel `num`); Go `int` is taken to be 64 bits; operands are restricted to the five numeric/bool Sexp types",
+        "CompareFunction's glue, NumericFunction's accumulation loop, BinaryIntFunction's name table and CallUserFunction's recover are hand-modelled and tied by correspondence only",
         "** (Pow) and shifts are outside the property and not modelled",
     ]
     if not (prep["ok_drv"] and prep["ok_harness"]):
         rep.violation("machinery-failure", {"what": "driver or harness did not build against the current tree",
                       "theorem_or_correspondence": "build of zydrv/zyh", "log": (prep["drv_out"] + prep["harness_out"])[-3000:]}, no_input=True)
         return
+    translator_report(rep)
     rows, stats = V.run_channel("num", rep.seed, rep.tier)
     def nontrivial(op, impl):
         return impl not in ("err", "bad-op")
     bad_spec, bad_model = V.correspondence(rep, "num", rows, stats, nontrivial=nontrivial)
+    gen_rows = [r for r in rows if r[0].split()[1] in ("gcmp", "gar", "gint")]
+    rep.coverage["translator"]["validation_ops"] = len(gen_rows)
+    rep.coverage["translator"]["validation_mismatches"] = sum(1 for r in gen_rows if r[1] != r[2])
     rep.coverage["exhaustive"] = False
     rep.coverage["rule"] = ("every pair of the boundary grid (see harness/ch_num.go numGrid) under every comparison and arithmetic operator, "
-                            "plus random 64-bit patterns; an op is non-trivial when the implementation answered with a value (not a type error)")
+                            "plus random 64-bit patterns; an op is non-trivial when the implementation answered with a value (not a type error); "
+                            "g-ops: the same grid (plus bools) and random patterns through the TRANSLATED Compare/NumericDo/IntegerDo against the Go originals")
     V.proof_break_resolution(rep, bool(bad_spec))
+
+
+def translator_report(rep):
+    """What the translator did on this tree, asked from the very driver binary the ops run
+    through (`num meta`): functions translated, functions refused (aliases of the committed
+    last-good translation: not an alarm, the g-ops compare them with the code), problems
+    (gating through the theorem translator_problems_empty)."""
+    info = {"translated": None, "refused": [], "problems": []}
+    try:
+        rc, out = V.sh([V.ZYDRV], stdin="num meta\n", timeout=60)
+        line = out.split("\n")[0].split("\t")[0]
+        head, _, tail = line.partition(" | ")
+        for kv in head.split():
+            k, _, v = kv.partition("=")
+            if k == "translated":
+                info["translated"] = int(v)
+        refused, _, problems = tail.partition(" | ")
+        info["refused"] = [x for x in refused.split(" ;; ") if x.strip()]
+        info["problems"] = [x for x in problems.split(" ;; ") if x.strip()]
+    except Exception as e:            # the driver did not build: reported by the caller
+        info["error"] = str(e)[:200]
+    rep.coverage["translator"] = info
+    if info["refused"]:
+        rep.assumptions.append("the translator refused %d function(s) on this tree (%s): for them the T1 tie is the committed last-good translation Model/NumGoGood.lean, compared with the Go code by the g-ops of channel `num` (T2) — not an alarm by itself"
+                               % (len(info["refused"]), "; ".join(info["refused"])[:600]))
+
+
+def name_broken_theorems(rep):
+    """Lean reports a failed proof by file:line; name the theorem it belongs to, so that the
+    violation says e.g. `generated_eq_model_compare` (the translated code no longer equals the
+    model) rather than a line number."""
+    errs = getattr(rep, "pending_proof_break", None)
+    if not errs:
+        return
+    path = os.path.join(V.LEAN, "ZygoVerif", "Props", "C07.lean")
+    try:
+        lines = open(path).read().split("\n")
+    except OSError:
+        return
+    def owner(n):
+        for i in range(min(n, len(lines)) - 1, -1, -1):
+            m = re.match(r"(?:private\s+)?(?:theorem|example|def)\s*(\S*)", lines[i])
+            if m:
+                return m.group(1) or "example"
+        return "?"
+    named, seen = [], set()
+    for e in errs:
+        m = re.search(r"Props/C07\.lean:(\d+):", e)
+        if m:
+            t = owner(int(m.group(1)))
+            if t not in seen:
+                seen.add(t)
+                named.append("theorem %s no longer checks (%s)" % (t, e[:160]))
+    if named:
+        rep.pending_proof_break = named + errs
+        rep.coverage["broken_theorems"] = sorted(seen)
